@@ -14,8 +14,8 @@ def prop(id, armed, technique, text, note, na_reason=None):
 NOT_YET = "rules designed in DESIGN.md but not armed in the checker yet; nothing is claimed until they are"
 
 prop("C01", True,
-     "table extraction of the operation constant along call paths, affine copy-loop analysis of the converters, abstract interpretation over the order domain for the rectangle shortcuts, AST rule over the dependency's trivial-case switches",
-     "Decides the geom-side plumbing around the external clipper and the rectangle shortcuts completely: (R1) each of the 12 receiver×method combinations reaches Construct with its own operation constant; (R2) subject built from the receiver only, clipping operand from every polygon of the parameter, converter copies every ring/vertex at the same index; (R3) result rings get len+1 vertices with last=first; (R4) box-box intersection, the three shortcuts for a general Polygonal argument, Within(*Bounds) and Polygons() agree with the order-level box relation for every weak ordering (exhaustive); (R5) the clipper's trivial-case switches treat XOR like UNION (read from the dependency's source).",
+     "table extraction of the operation constant along call paths, affine copy-loop analysis of the converters, abstract interpretation over the order domain (with nondeterministic answers for calls on an opaque polygon) for the rectangle shortcuts, AST rule over the dependency's trivial-case switches",
+     "Decides the geom-side plumbing around the external clipper and the rectangle shortcuts completely: (R1) each of the 12 receiver×method combinations reaches Construct with its own operation constant; (R2) subject built from the receiver only, clipping operand from every polygon of the parameter, converter copies every ring/vertex at the same index; (R3) result rings get len+1 vertices with last=first; (R4) box-box intersection, Within(*Bounds) and Polygons() agree with the order-level box relation for every weak ordering (exhaustive), and for each of the four *Bounds operations with a general polygon every shortcut result (nil, the box, the argument) follows from the box relation alone — questions the code asks about the polygon's shape (Within, point-in-polygon) are answered in every possible way; (R5) the clipper's trivial-case switches treat XOR like UNION (read from the dependency's source).",
      "Not decided: the sweep-line clipper for overlapping operands (external numerical algorithm), hence the point-set identity and area identities themselves. Two open known findings (R5: XOR of disjoint/empty operands is empty in polyclip-go v1.1.0).",
      None)
 prop("C02", True,
@@ -24,14 +24,14 @@ prop("C02", True,
      "Not decided: the slope comparisons of rayIntersectsSegment/pointOnSegment (division, rounding), i.e. the classification of points that survive the order-level exits; the caller in area() that passes a reduced polygon with reduced bounds. One reviewed exception in R4: Polygon.Within returns OnEdge for deeply-equal operands.",
      None)
 prop("C03", True,
-     "affine loop/index analysis (segment pair sets), polynomial expansion of fold summands, a parity type system (zero/even/odd/mixed under ring reversal) evaluated by path-sensitive AST dataflow with callee summaries",
-     "Structural necessary conditions: (R1) every fold over consecutive vertices reachable from Area/Length/Distance/Centroid (geom and op) visits the right pair set — shoelace: chain 0..len-2 plus a closing term that equals the loop's own summand at (last, first), behind an empty-ring guard; Length/Distance/centroid loops: the open chain; (R2) orientation parity: Area results are even; Polygon/op Centroid even under global reversal; MultiPolygon.Centroid even under reversal of any single ring (odd/even decided by expanding each summand to a polynomial and comparing with its vertex swap); (R3) member aggregation is a full-range + from 0 / min from +Inf. These are exactly the clauses 'whatever the winding / start vertex / closed-or-not spelling' that tests sample and this decides for all paths.",
+     "affine loop/index analysis (segment pair sets), polynomial expansion of fold summands, a parity type system (zero/even/odd/mixed under ring reversal) evaluated by path-sensitive AST dataflow with callee summaries, path-sensitive comparison-fact dataflow for the clamped projection, an axis (X/Y) type rule on comparisons",
+     "Structural necessary conditions: (R1) every fold over consecutive vertices reachable from Area/Length/Distance/Centroid (geom and op) visits the right pair set — shoelace: chain 0..len-2 plus a closing term that equals the loop's own summand at (last, first), behind an empty-ring guard; Length/Distance/centroid loops: the open chain; (R2) orientation parity: Area results are even; Polygon/op Centroid even under global reversal; MultiPolygon.Centroid even under reversal of any single ring (odd/even decided by expanding each summand to a polynomial and comparing with its vertex swap); (R3) member aggregation is a full-range + from 0 / min from +Inf; (R4) in both point-to-segment distance routines the projection parameter is in [0,1] at the foot point and the division producing it has a non-zero divisor on every path (comparison facts closed under transitivity); (R5) no comparison in geom/op relates an X ordinate to a Y ordinate. These are exactly the clauses 'whatever the winding / start vertex / closed-or-not spelling' that tests sample and this decides for all paths.",
      "Not decided: floating-point accuracy, hole detection by point-in-polygon inside area(), Buffer's trigonometry, numerical agreement of op.* with the root package. Recursive calls (op.Area over nested collections) are assumed even and confirmed by the outer result.",
      None)
 prop("C04", True,
      "abstract interpretation over the order domain (all weak orderings of the coordinates, exhaustive) + affine loop analysis + path-sensitive guard-freshness dataflow in the iterator closures",
      "Decides structural necessary conditions on every path/ordering: (R1) Extend/extendPoint are the lattice join with nil/empty operands as identities, NewBounds is the join identity, Overlaps/Empty/Copy and box-box Intersection match their order-level specification for every weak ordering of the eight coordinates incl. the canonical empty box; "
-     "(R2) every Bounds()/Len() is a complete fold over the receiver; (R3) every nested access in a Points() closure sits behind a length guard that is still fresh, and nothing is indexed before the first call; (R4) indices only ++/reset and the element index advances exactly once per call. "
+     "(R2) every Bounds()/Len() is a complete fold over the receiver; (R3) every nested access in a Points() closure sits behind a length guard that is still fresh, and nothing is indexed before the first call; (R4) indices only ++/reset and the element index advances exactly once per call; (R5) axis discipline: none of the ordinate-to-ordinate comparisons in geom, index/rtree and op relates an X ordinate to a Y ordinate (through locals, math.Min/Max and ± axis-free terms). "
      "Right level: the property quantifies over all geometries incl. runs of empty members and all float values; R1 is exhaustive over the order domain (so exact for all non-NaN floats), R2–R4 cover all paths of the code.",
      "Not decided: that exactly Len() calls succeed (needs an inductive invariant relating indices to the call count); NaN and -0 behaviour of math.Min/Max. Assumes the closure invariant 'member iterator p corresponds to the current member index' holds at entry (it is re-established on every path that changes the index).",
      None)
@@ -42,7 +42,7 @@ prop("C05", True,
      None)
 prop("C06", True,
      "table extraction from the encoder type switch / decoder name switch with static nesting depth from go/types, shape rules for positions, affine identity-copy-loop analysis",
-     "(R1) each of the six types is written with its RFC 7946 name and a coordinates value whose static type nests exactly as required, the decoder's case for each name decodes that nesting and returns the same-named geom type, JSON members are type/coordinates; (R2) positions are [p.X, p.Y] and read back as X=e[0], Y=e[1] under len(e)==2; (R3) all 13 conversion loops are full-range identity maps into make(T, len(src)); (R4) Encode returns json.Marshal's error and an error for unsupported types.",
+     "(R1) each of the six types is written with its RFC 7946 name and a coordinates value whose static type nests exactly as required, the decoder's case for each name decodes that nesting and returns the same-named geom type, JSON members are type/coordinates; (R2) positions are [p.X, p.Y] and read back as X=e[0], Y=e[1] under len(e)==2; (R3) all 13 conversion loops are full-range identity maps into make(T, len(src)); (R4) Encode returns json.Marshal's error and an error for unsupported types; (R5) no type of the package defines JSON/text marshalling hooks, so number formatting and parsing stay encoding/json's (the trust base of the exact round trip).",
      "Not decided: encoding/json's float formatting/parsing (trusted shortest round trip), interface{} decoding of numbers as float64.",
      None)
 prop("C07", True,
@@ -52,12 +52,12 @@ prop("C07", True,
      None)
 prop("C08", True,
      "SSA backward data-dependence of closure results (through phis, allocs, field loads), registry table extraction, stage/role classification of the NewTransform pipeline",
-     "(R1) in all 14 forward/inverse closures of the registered projections every success return yields coordinates that depend on the inputs; (R2) the NewTransform pipeline is mirrored around the datum shift: ×/÷ ToMeter, ± FromGreenwich, deg2rad·r2d = 1, inverse member for the source and forward member for the destination, denorm false/true, stages in mirrored order; (R3) all eight projections are registered with constructors yielding both closures; (R4) in each inverse the longitude result depends on Long0 and the latitude does not. Necessary for inverse(forward(p)) = p; broken instances are total failures (Krovak inverse returned (0,0)).",
+     "(R1) in all 14 forward/inverse closures of the registered projections every success return yields coordinates that depend on the inputs; (R2) the NewTransform pipeline is mirrored around the datum shift: ×/÷ ToMeter, ± FromGreenwich, deg2rad·r2d = 1, inverse member for the source and forward member for the destination, denorm false/true, stages in mirrored order; (R3) all eight projections are registered with constructors yielding both closures; (R4) in each inverse the longitude result depends on Long0 and the latitude does not; (R5) in the conic family (inverse lon = atan2(…)/N + λ0, discovered: lcc, aea, eqdc) the polar angle is taken of coordinates multiplied by ±1 following the sign of the cone constant. Necessary for inverse(forward(p)) = p; broken instances are total failures (Krovak inverse returned (0,0)).",
      "Not decided: the projection formulas themselves, convergence of the iterative latitude solvers inside the usable region, tolerance figures. Dropping a solver's error was considered and rejected as a rule (not necessary for C08).",
      None)
 prop("C09", True,
-     "table agreement between Go composite literals (constants folded by go/types) and the bundled proj4js 2.3.12 sources read by a small JS-subset reader; typed-constant rule for integer division in float context; angle-unit type system (degree/radian) evaluated by path-sensitive AST dataflow against proj4js' own params table; call-order rule for the datum shifts",
-     "(R1, complete for this clause) all 43 ellipsoids, 16 datums, 13 prime meridians, 2 units and 14 named numeric constants equal the bundled proj4js source as float64 (same key sets, towgs84 element-wise); (R2) no integer-constant quotient is used as a float coefficient; (R3) every PROJ.4 key that proj4js multiplies by D2R is multiplied by deg2rad exactly once on every path of its case and no linear/scale key is; (R4) no 2-D Transformer hop between two datum shifts.",
+     "table agreement between Go composite literals (constants folded by go/types) and the bundled proj4js 2.3.12 sources read by a small JS-subset reader; typed-constant rule for integer division in float context; angle-unit type system (degree/radian) evaluated by path-sensitive AST dataflow against proj4js' own params table; call-order rule for the datum shifts; SSA operand-closure (simultaneity) and signed sum-of-products extraction for the Helmert shift; a two-point e/e² type system over call sites",
+     "(R1, complete for this clause) all 43 ellipsoids, 16 datums, 13 prime meridians, 2 units and 14 named numeric constants equal the bundled proj4js source as float64 (same key sets, towgs84 element-wise); (R2) no integer-constant quotient is used as a float coefficient; (R3) every PROJ.4 key that proj4js multiplies by D2R is multiplied by deg2rad exactly once on every path of its case and no linear/scale key is; (R4) no 2-D Transformer hop between two datum shifts; (R6) the 3/7-parameter datum shifts: outputs computed simultaneously (no returned ordinate is an SSA operand of another), each output = own ordinate ± p[3+third axis]·other ordinate with antisymmetric couplings and translation p[axis], the inverse uses the transposed matrix, opposite translation sign and divides by the scale; (R7) eccentricity typing e / e² (SR.E, SR.Es, sqrt, squares, 1−(B/A)²): every helper parameter receives one of the two at all call sites.",
      "Not decided: numerical agreement of every projection formula with proj4js and with Snyder/Karney references (0.1 mm / 5 mm) — cross-language formula comparison was rejected as brittle; R5 (dimensional homogeneity) is not armed. One open known finding (R4: height dropped in the WGS84 hop, 0.93 mm).",
      None)
 prop("C10", True,
@@ -67,22 +67,22 @@ prop("C10", True,
      None)
 prop("C11", True,
      "path-sensitive AST dataflow with balance facts (root/height, size), placement/parent-link pairing rules, post-dominance of the upward envelope pass over the package call graph, purity summaries, abstract interpretation over the order domain for the box predicates",
-     "Guttman bookkeeping decided on every path: (R1) every root store outside the constructor is balanced by height++/-- on all paths and every node creation sets its level; (R2) every placement of an entry with a possibly non-nil child into a node is paired with child.parent = node (or the entry already belongs to that node; the adjustTree sibling is discharged by the caller-side fact that split() links it); (R3) every mutation of a node's entries under Insert/Delete is followed before return by the upward pass that stores recomputed envelopes; (R4) Insert is size+1 on every path, Delete returns true only after one removal and one size--, and false only on effect-free paths (purity of findLeaf over the package call graph); (R6) intersect/containsRect/containsPoint/enlarge/boundingBox equal their order-level specification for every weak ordering, the search visits every intersecting entry with no other filter, the envelope fold covers all entries.",
-     "Not decided: that split/condense keep all leaves at one depth for every history; multiplicity of results; quadratic-split heuristics; fan-out bound (R5 not armed). Field roles are discovered from Depth()/Size() and types, so renames do not matter.",
+     "Guttman bookkeeping decided on every path: (R1) every root store outside the constructor is balanced by height++/-- on all paths and every node creation sets its level; (R2) every placement of an entry with a possibly non-nil child into a node is paired with child.parent = node (or the entry already belongs to that node; the adjustTree sibling is discharged by the caller-side fact that split() links it); (R3) every mutation of a node's entries under Insert/Delete is followed before return by the upward pass that stores recomputed envelopes, and the pass itself visits every ancestor up to the root (loop form: condition is the root test, no break/return/continue, each iteration repairs the node's own entry or removes it; recursion form: every return is the root case or recurses on the parent after the repair; a root test by parent==nil is accepted only if every root store clears the parent link); (R4) Insert is size+1 on every path, Delete returns true only after one removal and one size--, and false only on effect-free paths (purity of findLeaf over the package call graph); (R6) intersect/containsRect/containsPoint/enlarge/boundingBox equal their order-level specification for every weak ordering, the search visits every intersecting entry with no other filter, the envelope fold covers all entries.",
+     "Not decided: that split/condense keep all leaves at one depth for every history; multiplicity of results; quadratic-split heuristics; fan-out below MinChildren after condensing. (R5) every append to a linked node's entries is followed by the MaxChildren test whose overflow branch splits that node. Field roles are discovered from Depth()/Size() and types, so renames do not matter.",
      None)
 prop("C12", True,
      "bound-derivation dataflow over the package (which values derive from MINDIST vs another point-to-box bound), k-dependence closure from the query's k parameter, shape rules for the leaf scans",
-     "Thin: (R1) below NearestNeighbors(k,p) no comparison that excludes a branch depends on a bound other than MINDIST unless it also depends on k (MINMAXDIST only promises one object); (R2) both leaf scans offer every entry's MINDIST from the query point and the entry's object to the accumulator over the full range, with the same bound function; (R3) the 1-NN exclusion by MINMAXDIST keeps entries whose MINDIST equals the bound.",
+     "Thin: (R1) below NearestNeighbors(k,p) no comparison that excludes a branch depends on a bound other than MINDIST unless it also depends on k (MINMAXDIST only promises one object); (R2) both leaf scans offer every entry's MINDIST from the query point and the entry's object to the accumulator over the full range, with the same bound function; (R3) the 1-NN exclusion by MINMAXDIST keeps entries whose MINDIST equals the bound; (R4) squared vs linear distances: bounds return squares, math.Sqrt makes them linear, no comparison mixes the two; (R5) the exact-envelope premise of the bounds: C11's envelope-maintenance obligations, re-established here.",
      "Not decided: ordering/exactness of returned distances, the MINDIST-ordered descent, tie handling, insertNearest's slice arithmetic.",
      None)
 prop("C13", True,
      "stutter-path detection (symbolic header-to-header paths + interval feasibility over len(x)), path-sensitive vetting dataflow, shape rules on the append sites, affine copy-loop analysis",
-     "Structural necessary conditions: (R1) the curve simplifier has no loop path that changes nothing its conditions read and is feasible on the first iteration (definite non-termination, witness interval on len(curve)); (R2) output fresh, every appended vertex is an input vertex, input never written, first vertex kept first, exit flag raised only right after appending the last vertex and is the only way out; (R3) every kept vertex is the scan start, adjacent to the previous kept one, or its replacing segment was tested against kept output, remaining input and other curves; (R4) Multi* methods map member i to index i over the full range and Polygon passes all rings as obstacles.",
+     "Structural necessary conditions: (R1) the curve simplifier has no loop path that changes nothing its conditions read and is feasible on the first iteration (definite non-termination, witness interval on len(curve)); (R2) output fresh, every appended vertex is an input vertex, input never written, first vertex kept first, exit flag raised only right after appending the last vertex and is the only way out; (R3) every kept vertex is the scan start, adjacent to the previous kept one, or its replacing segment was tested against kept output, remaining input and other curves; (R4) Multi* methods map member i to index i over the full range and Polygon passes all rings as obstacles; (R5) the deviation measure is the distance to the replacing segment: projection parameter clamped to [0,1], no 0/0.",
      "Not decided: the tolerance guarantee, order of kept indices, termination on later iterations / for self-intersecting inputs (documented upstream as out of contract). One open known finding (R3: the final 'append last point regardless' segment is not vetted).",
      None)
 prop("C14", True,
      "operation-constant extraction along call paths, affine copy/strip loop analysis, AST rule over the dependency's segment loop",
-     "Thin by nature (the clipping is done by the external clipper): (R1) the line(s) become the subject contours one-to-one, the polygon is the clipping operand, the mode is CLIPLINE; (R2) every returned piece is result[i][0:len-1], i.e. strips exactly the one vertex the result converter appends; (R3) the clipper skips the subject's closing segment in CLIPLINE mode.",
+     "Thin by nature (the clipping is done by the external clipper): (R1) the line(s) become the subject contours one-to-one, the polygon is the clipping operand, the mode is CLIPLINE; (R2) every returned piece is result[i][0:len-1], i.e. strips exactly the one vertex the result converter appends; (R3) the clipper skips the subject's closing segment in CLIPLINE mode; (R4) no conditional return or skipped member ahead of the clipper call unless implied by disjoint closed bounding boxes, and then the result is empty.",
      "Not decided: everything the external clipper computes (that pieces lie on L and inside P, total length, emptiness).",
      None)
 prop("C15", True,
@@ -90,14 +90,14 @@ prop("C15", True,
      "Structural necessary conditions of symmetry and of 'false when counts/types differ', decided on every path of every Similar method: "
      "(R1) each possibly-true result is preceded by a member-count equality test (directly, through a length-checking helper, or a final emptiness test of the unmatched remainder); "
      "(R2) possibly-true results occur only after the argument was found to have the receiver's type; "
-     "(R3) the scalar test is |a-b|<tol on matching axes and list comparison is element-wise over the full range. "
+     "(R3) the scalar test is |a-b|<tol on matching axes, list comparison is element-wise over the full range, and the ring comparison makes at least len-1 steps from the two anchors with both cursors advanced by the same successor and no early exit. "
      "This is the right level because the matching semantics under permutation/rotation quantifies over float inputs and is not decidable from shape; the clauses above are and each, if broken, yields a concrete asymmetric pair.",
      "Not decided: the greedy matching itself (ambiguous matches, ring rotation by minPt/nextPt). Trusted: go/types resolution; idioms enumerated in checker/c15.go (type switch bound/unbound, comma-ok, len compare, helper call).",
      None)
 prop("C16", True,
      "table extraction (type-name switch, type switch, reflect.TypeOf case list) joined with SSA return types; symbolic part-range loop analysis (dst[j-start]=src[j], start<=j<end) plus affine identity-copy analysis; shape rule for ring closing; constant-folded width inequalities",
-     "(R1) the four-column table type name → shape-type constant → concrete go-shp shape built → geom type rebuilt is consistent for Point, LineString, MultiLineString, Polygon, *Bounds, MultiPoint; (R2) the part-boundary helper is parts[i]..parts[i+1] / len(points), and all 12 geometry copy loops (both directions, M/Z variants included) are identity index maps over the full part or collection range, whatever the loop direction; (R3) rings are closed by appending the first vertex exactly when non-empty and first≠last; (R4) encoder and decoder attribute kinds are both {int,float64,string} and the folded widths satisfy string≥50, int≥10, float precision≥10 and width≥1+17+1+precision.",
-     "Not decided: go-shp's file I/O and dBase formatting, float text round trip to 10 decimals, field-name matching by tag/case, that EncodeFields ignores WriteAttribute errors (noted by errcheck; outside every clause).",
+     "(R1) the four-column table type name → shape-type constant → concrete go-shp shape built → geom type rebuilt is consistent for Point, LineString, MultiLineString, Polygon, *Bounds, MultiPoint; (R2) the part-boundary helper is parts[i]..parts[i+1] / len(points), and all 12 geometry copy loops (both directions, M/Z variants included) are identity index maps over the full part or collection range, whatever the loop direction; (R3) rings are closed by appending the first vertex exactly when non-empty and first≠last, to a slice that owns its backing array; (R5) the decoder's column index and every lookup are lower-cased and DecodeRow looks each field up by its tag and, independently, by its name; (R4) encoder and decoder attribute kinds are both {int,float64,string} and the folded widths satisfy string≥50, int≥10, float precision≥10 and width≥1+17+1+precision.",
+     "Not decided: go-shp's file I/O and dBase formatting, float text round trip to 10 decimals, that EncodeFields ignores WriteAttribute errors (noted by errcheck; outside every clause).",
      None)
 prop("C17", True,
      "emission-grammar extraction: abstract interpretation of the appender functions with every loop unrolled for 1,2,3 members per nesting level, token strings parsed by an OGC WKT recogniser held in the checker; constant-argument rule for strconv; support table",
@@ -111,13 +111,13 @@ prop("C18", True,
      None)
 prop("C19", True,
      "type-level conformance check (go/types.Implements of the AStar graph argument against gonum's path.Weighted), max-accumulator shape rule on every store of the heuristic's divisor, table/loop rules for weights and totals, pairing rule for adjacency stores",
-     "(R1) the static type of the graph passed to gonum path.AStar implements path.Weighted — the optional interface AStar asserts before silently falling back to unit costs (near-misses are reported with both signatures); (R2) the field the time heuristic divides by is a running maximum of link speeds at every store (admissibility direction); (R3) Weight returns the time/length field per option with no numeric default, time = length/speed, the route loop covers every consecutive node pair and sums the appended link's own length and time; (R4) adjacency stores are mirrored.",
+     "(R1) the static type of the graph passed to gonum path.AStar implements path.Weighted — the optional interface AStar asserts before silently falling back to unit costs (near-misses are reported with both signatures); (R2) the field the time heuristic divides by is a running maximum of link speeds at every store, and every value the heuristic returns is 0, the straight-line distance (Distance option) or that distance over the maximum speed (Time option); (R3) Weight returns the time/length field per option with no numeric default, time = length/speed, the route loop covers every consecutive node pair and sums the appended link's own length and time; (R4) adjacency stores are mirrored.",
      "Not decided: optimality of gonum's A* itself, node snapping tolerance (newNode / op.PointEquals), behaviour for disconnected nodes.",
      None)
 prop("C20", True,
      "table agreement between the WKT PARAMETER switch and the PROJ.4 key switch against an OGC↔PROJ correspondence table held in the checker; unit rules (deg2rad / ToMeter) on the type-checked AST; registry extraction; path-sensitive rule for the identity shortcut",
-     "(R1) the 11 corresponding WKT/PROJ.4 parameter names set the same SR field; (R2) WKT angular parameters × deg2rad, linear ones not, false origin × ToMeter exactly once after all sections are parsed, UNIT factor stored unchanged for projected systems; (R3) each of the five WKT projection names is registered for the same constructor as its PROJ.4 short name and every alias in the definition registry is bound to the identical *SR; (R4) NewTransform returns the nil transformer exactly on the Equal-true path.",
-     "Not decided: micrometre agreement of the resulting transformers, Equal's ULP arithmetic over reflected fields, SPHEROID/DATUM/TOWGS84 clause handling beyond the tables (datum renaming heuristics).",
+     "(R1) the 11 corresponding WKT/PROJ.4 parameter names set the same SR field; (R2) WKT angular parameters × deg2rad, linear ones not, false origin × ToMeter exactly once after all sections are parsed, UNIT factor stored unchanged for projected systems; (R3) each of the five WKT projection names is registered for the same constructor as its PROJ.4 short name and every alias in the definition registry is bound to the identical *SR; (R4) NewTransform returns the nil transformer exactly on the Equal-true path; (R5) Equal's reflective worker: the float case continues exactly when both values are NaN or neither is and they agree (truth table over isNaN/withinULP with helper inlining), slice elements are indexed only after a length-equality test, pointees compared only after nil-parity and non-nil tests.",
+     "Not decided: micrometre agreement of the resulting transformers, SPHEROID/DATUM/TOWGS84 clause handling beyond the tables (datum renaming heuristics).",
      None)
 
 def main():
